@@ -9,6 +9,7 @@ PRESETS = {
     "delimited": ("delimited", [], ".", ""),
     "delimited_us": ("delimited", [("thousands separator", ",")], ".", ","),
     "delimited_de": ("delimited", [("item delimiter", ";"), ("decimal separator", ","), ("thousands separator", ".")], ",", "."),
+    "delimited_comma": ("delimited", [("item delimiter", ";"), ("decimal separator", ",")], ",", ""),  # decimal comma, no grouping: a dot has no meaning
     "fixed": ("fixed", [], ".", ""),
     "fixed_de": ("fixed", [("decimal separator", ","), ("thousands separator", ".")], ",", "."),
     "excel": ("excel", [], ".", ""),
@@ -72,12 +73,12 @@ def quoted_items(items):
     return ", ".join(limit(lo) if single else limit(lo) + "..." + limit(hi) for lo, hi, single in items)
 
 
-def cid_rows(preset, decls, checks=(), header=0, allowed=None, extra=(), line_delimiter=None, allowed_quoted=False, allowed_after_fields=False):
+def cid_rows(preset, decls, checks=(), header=0, allowed=None, extra=(), line_delimiter=None, allowed_quoted=False, allowed_after_fields=False, props_after_fields=False):
     fmt, props, _, _ = PRESETS[preset]
     rows = [["D", "Format", fmt]]
     if header:
         rows.append(["D", "Header", str(header)])
-    for name, value in list(props) + list(extra):
+    for name, value in ([] if props_after_fields else list(props)) + list(extra):
         rows.append(["D", name, value])
     if line_delimiter:
         rows.append(["D", "Line delimiter", line_delimiter])
@@ -89,6 +90,8 @@ def cid_rows(preset, decls, checks=(), header=0, allowed=None, extra=(), line_de
                      fieldmodel.render_rule(decl["type"], decl.get("rule"))])
     if allowed_row and allowed_after_fields:
         rows.append(allowed_row)  # data format rows may follow the fields: the property still applies to every field
+    if props_after_fields:
+        rows += [["D", name, value] for name, value in props]  # so do the separators
     for check in checks:
         rows.append(["C"] + list(check))
     return rows
